@@ -29,6 +29,7 @@ SYNC_RULE = ("sync stream: per case a fresh regtest canister (threshold 1-4, def
 
 PROPS = {
     "C06": {
+        "extra_props": ["ReachAll"],
         "spec_ops": ["c walk done"],
         "streams": [{"name": "ledger", "quick": 160, "thorough": 1600}],
         "rule": LEDGER_RULE + " Interleaved page walks: a walk (page size 1-3) is started on a random address and its pages are fetched with pushes, ingestions and queries in between; `walk done` compares the concatenation with the ledger at the first tip. One directed case per four shards: a transaction with 300 outputs to one address, page size 200, first page before and later pages after the block stabilises (known finding F11).",
@@ -39,6 +40,7 @@ PROPS = {
         "assumptions": [],
     },
     "C07": {
+        "extra_props": ["ReachAll"],
         "spec_ops": ["c q headers"],
         "streams": [{"name": "ledger", "quick": 160, "thorough": 1600}, {"name": "sync", "quick": 64, "thorough": 800}],
         "rule": LEDGER_RULE + " Header ranges (start, end) up to tip+2 are requested after steps and at pauses of sliced ingestions; the specification column of every `q headers` line is the slice of (stable chain ++ heaviest branch) computed by the driver.",
@@ -49,6 +51,7 @@ PROPS = {
         "assumptions": ["maxHeaders >= 1 (the constant is 100, generated)"],
     },
     "C08": {
+        "extra_props": ["ReachAll"],
         "spec_ops": ["c pausedsame"],
         "streams": [{"name": "ledger", "quick": 160, "thorough": 1600}, {"name": "sync", "quick": 64, "thorough": 800}],
         "rule": LEDGER_RULE + " Ingestion rounds with budgets 0-12 pause the anchor's ingestion at every position (inputs / outputs of every transaction); at each pause `pausedsame` compares the labelled answers of every query endpoint for every pool address with the ones taken before the ingestion began (specification column same=1, len=1), and the run continues with further slices; the final state is compared with the model, which is proved schedule-independent.",
@@ -70,7 +73,7 @@ PROPS = {
     },
     "C20": {
         "spec_ops": [],
-        "extra_props": ["C01Reach", "C03History"],
+        "extra_props": ["C01Reach", "C03History", "ReachAll"],
         "streams": [{"name": "ledger", "quick": 160, "thorough": 1600}, {"name": "sync", "quick": 64, "thorough": 800}],
         "rule": LEDGER_RULE + " The `snap` line dumps, canonically sorted: tree hashes, hashes in the stable-memory block cache, every cached tx out with value/address/height/reference count, per-block added and removed outpoints per address, announced headers by hash and by height, cached and recomputed tip depths.",
         "explanation": "theorems for every reachable state (no mid-block pause): block-cache hashes = tree hashes (Nodup, same length); keys of the per-block delta maps = tree hashes and their content = the blocks' projections; a tx-out entry exists iff referenced, count = number of references, content = true output; every outpoint a later query / fee computation / removal looks up is present (remove never fails); cached tip depths = recomputed, also after upgrade; announced headers: the two maps agree, none is a tree block, all heights > stable height after a pop, max height = maximum.",
@@ -81,7 +84,7 @@ PROPS = {
     },
     "C01": {
         "spec_ops": ["c ledgerat"],
-        "extra_props": ["C01Reach", "InvPush", "InvIngest", "BlockCodec"],
+        "extra_props": ["C01Reach", "InvPush", "InvIngest", "BlockCodec", "ReachAll"],
         "streams": [{"name": "ledger", "quick": 160, "thorough": 1600}, {"name": "sync", "quick": 64, "thorough": 800}],
         "rule": LEDGER_RULE,
         "explanation": "theorems: for every state satisfying the global invariant Inv (established by init, preserved by push of a transaction-valid block and by ingestion+pop: Props/InvPush, Props/InvIngest) "
@@ -94,6 +97,7 @@ PROPS = {
         "assumptions": ["Address::from_script and txid computation are library functions (given)"],
     },
     "C05": {
+        "extra_props": ["ReachAll"],
         "spec_ops": ["c sumat"],
         "streams": [{"name": "ledger", "quick": 160, "thorough": 1600}, {"name": "sync", "quick": 64, "thorough": 800}],
         "rule": LEDGER_RULE,
@@ -117,6 +121,7 @@ PROPS = {
         "assumptions": ["regtest only for the end-to-end stream (proof of work must be mined); mainnet/testnet header rules are covered by C11's stream"],
     },
     "C13": {
+        "extra_props": ["C13Live"],
         "spec_ops": [],
         "streams": [{"name": "sync", "quick": 160, "thorough": 3200}],
         "rule": SYNC_RULE,
@@ -141,6 +146,7 @@ PROPS = {
         "assumptions": ["threshold changes while an ingestion is paused are outside the modelled domain of the ledger stream (see DESIGN F13)"],
     },
     "C04": {
+        "extra_props": ["ReachAll"],
         "spec_ops": ["c cutat"],
         "streams": [{"name": "ledger", "quick": 160, "thorough": 1600}],
         "rule": LEDGER_RULE,
@@ -180,7 +186,8 @@ PROPS = {
         "assumptions": ["the check is on normalised txids (compute_ntxid): stricter than 'no shared txid'"],
     },
     "C15": {
-        "spec_ops": [],
+        "extra_props": ["C15Spec"],
+        "spec_ops": ["c q feesn"],
         "streams": [{"name": "ledger", "quick": 160, "thorough": 1600}, {"name": "sync", "quick": 80, "thorough": 800}],
         "rule": LEDGER_RULE,
         "explanation": "theorems: percentiles = [] or 101 values, non-decreasing, index 0/100 = min/max, nearest-rank on any sorted permutation, order independent; the input is the first <= 10000 cached fee rates "
@@ -203,6 +210,7 @@ PROPS = {
         "assumptions": ["ParserWF: numbers the parser reports as u64 are < 2^64"],
     },
     "C19": {
+        "extra_props": ["NetSpelling"],
         "spec_ops": [],
         "streams": [{"name": "txc", "quick": 3000, "thorough": 60000}, {"name": "sync", "quick": 160, "thorough": 1600}],
         "rule": "txc stream: random transactions (0-3 inputs, 0-3 outputs, legacy/segwit, witness stacks, scripts of 0-300 bytes), their exact serialisation and variants: extended by 1-5 bytes, truncated, "
@@ -216,6 +224,7 @@ PROPS = {
         "assumptions": ["payload elements are bytes (< 256)"],
     },
     "C14": {
+        "extra_props": ["NetSpelling"],
         "spec_ops": [],
         "streams": [{"name": "sync", "quick": 160, "thorough": 3200}],
         "rule": SYNC_RULE,
